@@ -79,6 +79,8 @@ pub(super) fn dispatch(repo: &gix::Repository, matches: &ArgMatches) -> Result<(
             deref: false,
         })?;
         stupid.branch_copy(None, new_branchname.as_ref())?;
+        // Opening the new stack creates its patch references.
+        Stack::from_branch_name(repo, new_branchname, InitializationPolicy::RequireInitialized)?;
     } else {
         stupid.branch_copy(None, new_branchname.as_ref())?;
         Stack::from_branch_name(repo, new_branchname, InitializationPolicy::MustInitialize)?;
